@@ -150,6 +150,7 @@ type runHooks struct {
 	extraCall    func(e *env, cl Client, cs CallSpec, ctx context.Context, rec *sched.CallRec) *CallResult
 	nClients     int
 	noClose      bool
+	afterMain    func(e *env)
 }
 
 func (e *env) stdGhost(g GhostSpec) func(*sched.Sim) {
@@ -167,6 +168,11 @@ func (e *env) stdGhost(g GhostSpec) func(*sched.Sim) {
 }
 
 func standardRun(t *testing.T, seed uint64, p *Plan, out *Outcome, h runHooks) *env {
+	if v, ok := p.X["sched_seed"].(float64); ok {
+		seed = uint64(v)
+	} else if v, ok := p.X["sched_seed"].(uint64); ok {
+		seed = v
+	}
 	e := newEnv(seed, p, out)
 	s := e.sim
 	n := s.W.AddNode(e.addr)
@@ -253,6 +259,9 @@ func standardRun(t *testing.T, seed uint64, p *Plan, out *Outcome, h runHooks) *
 		rr2 := s.Run(s.AllTasksDone)
 		out.Reason = rr.Reason + "+" + rr2.Reason
 	}
+	if h.afterMain != nil {
+		h.afterMain(e)
+	}
 	if !h.noClose {
 		e.closeClients()
 	}
@@ -315,6 +324,9 @@ func (e *env) finish() {
 // callsOf iterates every call record with its spec and result.
 func (e *env) eachCall(fn func(task int, spec CallSpec, rec *sched.CallRec, res *CallResult)) {
 	for ti, t := range e.sim.Tasks {
+		if ti >= len(e.plan.Tasks) {
+			break
+		}
 		for _, rec := range t.Recs {
 			var res *CallResult
 			if rec.Done {
